@@ -51,10 +51,18 @@ ILower(c, i) == IRange(IMembers(c, i)) \ IUpper(c, i)
 IHalf(c, a) == IF a \in IUpper(c, c.itof[a]) THEN IUpper(c, c.itof[a])
                ELSE ILower(c, c.itof[a])
 IHalfRequires(c, h) == UNION {c.req[a] : a \in h}
+(* half_iteration_requires after "the whole iteration starts when its first *)
+(* (upper half) action starts": the upper half also waits for whatever the  *)
+(* lower half needs from outside of the iteration                           *)
+IHalfRequiresAll(c, i, h) ==
+  IF h = IUpper(c, i)
+  THEN IHalfRequires(c, h) \cup
+       (IHalfRequires(c, ILower(c, i)) \ IRange(IMembers(c, i)))
+  ELSE IHalfRequires(c, h)
 (* self.action_requires after the propagation loop *)
 ActionRequires(c, a) ==
   IF IIterated(c, a)
-  THEN c.req[a] \cup (IHalfRequires(c, IHalf(c, a)) \ IHalf(c, a))
+  THEN c.req[a] \cup (IHalfRequiresAll(c, c.itof[a], IHalf(c, a)) \ IHalf(c, a))
   ELSE c.req[a]
 
 (* ---------------- SortActions ---------------- *)
